@@ -80,20 +80,35 @@ func runZCutScenario(seed int64) *scenario {
 			}
 		}
 		sc.tag("z:" + shape)
-		nfrag := []int{1, 1, 2, 3}[r.Intn(4)]
-		rest := raw
-		for k := 0; k < nfrag; k++ {
-			m := len(rest)
-			if k < nfrag-1 {
-				m = r.Intn(len(rest) + 1)
+		// fragmentation: random split points, or ("tail") everything but the last byte, the last
+		// byte on its own, then one or two empty continuation frames — the frames after the
+		// deflate stream's end must still arrive for the message to be complete
+		var parts [][]byte
+		if compressed && len(raw) > 1 && r.Intn(3) == 0 {
+			parts = [][]byte{raw[:len(raw)-1], raw[len(raw)-1:]}
+			for k := 1 + r.Intn(2); k > 0; k-- {
+				parts = append(parts, nil)
 			}
+			sc.tag("z:tailfrags")
+		} else {
+			nfrag := []int{1, 1, 2, 3}[r.Intn(4)]
+			rest := raw
+			for k := 0; k < nfrag; k++ {
+				m := len(rest)
+				if k < nfrag-1 {
+					m = r.Intn(len(rest) + 1)
+				}
+				parts = append(parts, rest[:m])
+				rest = rest[m:]
+			}
+		}
+		for k, part := range parts {
 			op := 0
 			if k == 0 {
 				op = t
 			}
-			add(encFrame{fin: k == nfrag-1, rsv1: compressed && k == 0, op: op, payload: rest[:m]})
-			rest = rest[m:]
-			if k < nfrag-1 && r.Intn(3) == 0 {
+			add(encFrame{fin: k == len(parts)-1, rsv1: compressed && k == 0, op: op, payload: part})
+			if k < len(parts)-1 && r.Intn(3) == 0 {
 				add(encFrame{fin: true, op: 9 + r.Intn(2), payload: []byte("c")})
 			}
 		}
@@ -102,6 +117,13 @@ func runZCutScenario(seed int64) *scenario {
 	cut := len(stream)
 	if r.Intn(4) > 0 {
 		cut = r.Intn(len(stream) + 1)
+		if r.Intn(3) == 0 {
+			// inside the last few bytes of a message
+			e := msgs[r.Intn(len(msgs))].end
+			if d := 1 + r.Intn(8); e-d >= 0 {
+				cut = e - d
+			}
+		}
 	}
 	log := &evlog{}
 	t := newTConn(log)
